@@ -181,6 +181,9 @@ func (rd *reader) close1002(rule string) {
 			if v, isC := data.Args[0].Int64(); !isC || v != protoCode || protoCode != 1002 {
 				ok, why = false, "close frame sent on a protocol error does not carry status 1002"
 			}
+			if !futureDeadline(ev.Args[3]) {
+				ok, why = false, "the 1002 close frame is sent with the deadline "+ev.Args[3].String()+", which is not now + a positive constant: a deadline that may already have passed (e.g. one the application set for an earlier write) makes WriteControl return a timeout without sending anything"
+			}
 			// length guard: either truncated or known <= 125
 			if !sliced && !knowsLt(p, ev.NLits, maxCtl+1, func(y *core.Term) bool { return y.Kind == core.KLen }) {
 				ok, why = false, "close payload may exceed 125 bytes (WriteControl would refuse it and nothing would be sent)"
@@ -197,4 +200,27 @@ func (rd *reader) close1002(rule string) {
 		ok, why = false, "no returning path"
 	}
 	r.Check(rule, shortFn(rd.protoErr), "sends-1002-and-fails", rd.protoErr.Pos(), ok, why)
+}
+
+// futureDeadline: t is time.Now().Add(d) with a positive constant d, or the
+// zero time (WriteControl treats it as "no deadline").
+func futureDeadline(t *core.Term) bool {
+	t = strip(t)
+	if t.Kind == core.KSliceLit && len(t.Args) == 0 {
+		return true
+	}
+	if t.Kind != core.KCall || len(t.Args) != 2 {
+		return false
+	}
+	f, ok := t.Ref.(*ssa.Function)
+	if !ok || extName(f) != "(time.Time).Add" {
+		return false
+	}
+	now := strip(t.Args[0])
+	g, ok := now.Ref.(*ssa.Function)
+	if now.Kind != core.KCall || !ok || extName(g) != "time.Now" {
+		return false
+	}
+	d, isC := t.Args[1].Int64()
+	return isC && d > 0
 }
